@@ -379,6 +379,9 @@ func (v *vc) enterLoop(fr *frame, st *state, li *loopInfo, hdrEntry map[*ssa.Bas
 		v.note("loop inside inlined function %s", fr.fn.Name())
 	}
 	// inv-init with phi values from entry
+	for _, ai := range v.loopAutoInv(fr, st, h, func(phi *ssa.Phi) string { return fr.vals[phi] }) {
+		v.oblige(st, "inv-init", ai.label, site, ai.term, nil)
+	}
 	if ls != nil {
 		env := v.phiEnv(fr, h, func(phi *ssa.Phi) string { return fr.vals[phi] })
 		for _, c := range ls.invariants {
@@ -438,6 +441,9 @@ func (v *vc) enterLoop(fr *frame, st *state, li *loopInfo, hdrEntry map[*ssa.Bas
 		fr.vals[phi] = v.havoc(phi.Name()+"."+phi.Comment, phi.Type(), n)
 	}
 	hdrEntry[h] = st
+	for _, ai := range v.loopAutoInv(fr, n, h, func(phi *ssa.Phi) string { return fr.vals[phi] }) {
+		v.fact(n, ai.term)
+	}
 	if ls != nil {
 		henv := v.phiEnv(fr, h, func(phi *ssa.Phi) string { return fr.vals[phi] })
 		for _, c := range ls.invariants {
@@ -459,9 +465,6 @@ func (v *vc) enterLoop(fr *frame, st *state, li *loopInfo, hdrEntry map[*ssa.Bas
 
 func (v *vc) checkBackEdge(fr *frame, st *state, from *ssa.BasicBlock, li *loopInfo, hdrEntry map[*ssa.BasicBlock]*state, hdrMeasure map[*ssa.BasicBlock]string) {
 	ls := v.loopSpecFor(fr, li)
-	if ls == nil {
-		return
-	}
 	h := li.header
 	site := fmt.Sprintf("loop%d", li.ordinal)
 	pick := func(phi *ssa.Phi) string {
@@ -471,6 +474,12 @@ func (v *vc) checkBackEdge(fr *frame, st *state, from *ssa.BasicBlock, li *loopI
 			}
 		}
 		return fr.vals[phi]
+	}
+	for _, ai := range v.loopAutoInv(fr, st, h, pick) {
+		v.oblige(st, "inv-keep", ai.label, site, ai.term, nil)
+	}
+	if ls == nil {
+		return
 	}
 	env := v.phiEnv(fr, h, pick)
 	for _, c := range ls.invariants {
